@@ -6,6 +6,8 @@ package http
 // from this file with or without the tag.
 
 //@ func (*HttpWorker).Process
-//@ props C19
+//@ props C08 C19
 //@ nopanic C13
 //@ requires w != nil && w.client != nil
+// a hand-off counts as delivered only when the receiver answered 200 (C08: anything else is retried)
+//@ site return assert result1 == nil ==> result0 == (res.StatusCode == 200)
